@@ -265,7 +265,6 @@ Section Proofs.
   Lemma support_sim c d : sim (fst (support c d)) c.
   Proof.
     induction c; simpl; auto using sim_refl; try (repeat split; reflexivity).
-    - destruct (call current F_hill_climb _ _); simpl; auto.
     - destruct (Colliders.support F Conn K current c d) as [c'' r]; simpl in *. auto.
   Qed.
 
@@ -301,95 +300,48 @@ Section Proofs.
   Lemma dat_maybe {T} b (a : arr T) : dat (maybe_contig b a) = dat a.
   Proof. destruct b; reflexivity. Qed.
 
+  Ltac arrs := repeat match goal with a : arr _ |- _ => destruct a end; simpl in *.
+  Ltac closed := arrs; intuition subst; tables; simpl; reflexivity.
+
   Lemma support_data a : forall b d,
     lay d = LC -> Inv a -> Inv b -> sim a b -> same_idx a b ->
     snd (support a d) = snd (support b d).
   Proof.
-    induction a; intros b d Hd Ha Hb Hs Hi; destruct b; simpl in Hs; try contradiction;
-      destruct (support_Inv _ d Hd Ha) as (_ & _ & (va & Ea));
-      destruct (support_Inv _ d Hd Hb) as (_ & _ & (vb & Eb)).
-    - (* Sphere *) destruct Hs as (H1 & ->). simpl in *. unfold w in *. revert Ea Eb.
-      unfold call. destruct (call_ok _ _); destruct (call_ok _ _); simpl; try discriminate.
-      rewrite !dat_maybe, H1. auto.
-    - destruct Hs as (H1 & -> & ->). simpl in *. unfold w in *. revert Ea Eb.
-      unfold call. destruct (call_ok _ _); destruct (call_ok _ _); simpl; try discriminate.
-      rewrite !dat_maybe, H1. auto.
-    - destruct Hs as (H1 & -> & ->). simpl in *. unfold w in *. revert Ea Eb.
-      unfold call. destruct (call_ok _ _); destruct (call_ok _ _); simpl; try discriminate.
-      rewrite !dat_maybe, H1. auto.
-    - destruct Hs as (H1 & -> & ->). simpl in *. unfold w in *. revert Ea Eb.
-      unfold call. destruct (call_ok _ _); destruct (call_ok _ _); simpl; try discriminate.
-      rewrite !dat_maybe, H1. auto.
-    - destruct Hs as (H1 & H2). simpl in *. unfold w in *. revert Ea Eb.
-      unfold call. destruct (call_ok _ _); destruct (call_ok _ _); simpl; try discriminate.
-      rewrite !dat_maybe, H1, H2. auto.
-    - destruct Hs as (H1 & H2 & H3). simpl. rewrite H3. auto.
-    - destruct Hs as (H1 & -> & H3). simpl in *. unfold w in *. revert Ea Eb.
-      unfold call. destruct (call_ok _ _); destruct (call_ok _ _); simpl; try discriminate.
-      rewrite !dat_maybe, H1, H3. auto.
-    - destruct Hs as (H1 & H2 & H3). simpl in *. unfold w in *. revert Ea Eb.
-      unfold call. destruct (call_ok _ _); destruct (call_ok _ _); simpl; try discriminate.
-      rewrite !dat_maybe, H1, H2, H3. auto.
-    - (* Mesh *) destruct Hs as (H1 & H2 & -> & H4). simpl in Hi. subst. simpl in *. revert Ea Eb.
-      unfold call. destruct (call_ok _ _); destruct (call_ok _ _); simpl; try discriminate.
-      rewrite H2, H4. auto.
-    - (* Margin *) destruct Hs as (Hs & ->). simpl in *.
-      specialize (IHa b d Hd Ha Hb Hs Hi).
-      destruct (Colliders.support F Conn K current a d) as [a' ra];
-      destruct (Colliders.support F Conn K current b d) as [b' rb]; simpl in *. subst rb. auto.
+    induction a; intros b d Hd Ha Hb Hs Hi; destruct b; simpl in Hs; try contradiction.
+    1-9: closed.
+    (* Margin *)
+    destruct Hs as (Hs & ->). simpl in *.
+    specialize (IHa b d Hd Ha Hb Hs Hi).
+    destruct (Colliders.support F Conn K current a d) as [a' ra];
+    destruct (Colliders.support F Conn K current b d) as [b' rb]; simpl in *. subst rb. auto.
   Qed.
 
   Lemma aabb_data a : forall b, Inv a -> Inv b -> sim a b -> aabb a = aabb b.
   Proof.
-    induction a; intros b Ha Hb Hs; destruct b; simpl in Hs; try contradiction; simpl.
-    - destruct Hs as (-> & ->); auto.
-    - destruct Hs as (-> & -> & ->); auto.
-    - destruct Hs as (-> & -> & ->); auto.
-    - destruct Hs as (-> & -> & ->); auto.
-    - destruct Hs as (-> & ->); auto.
-    - destruct Hs as (H1 & H2 & _). simpl in Ha, Hb. destruct Ha as (A1 & A2), Hb as (B1 & B2).
-      unfold call, al. rewrite A1, A2, B1, B2, H1, H2. auto.
-    - destruct Hs as (-> & -> & ->); auto.
-    - destruct Hs as (-> & -> & ->); auto.
-    - destruct Hs as (-> & -> & _); auto.
-    - destruct Hs as (Hs & ->). simpl in Ha, Hb. rewrite (IHa b Ha Hb Hs). auto.
+    induction a; intros b Ha Hb Hs; destruct b; simpl in Hs; try contradiction.
+    1-9: closed.
+    destruct Hs as (Hs & ->). simpl in *. rewrite (IHa b Ha Hb Hs). auto.
   Qed.
 
   Lemma center_data a : forall b, sim a b -> center a = center b.
   Proof.
-    induction a; intros b Hs; destruct b; simpl in Hs; try contradiction; simpl;
-      try (destruct Hs as (-> & _); reflexivity).
-    - destruct Hs as (-> & _ & ->); auto.
-    - destruct Hs as (-> & -> & _); auto.
-    - destruct Hs as (Hs & _); auto.
+    induction a; intros b Hs; destruct b; simpl in Hs; try contradiction.
+    1-9: closed.
+    destruct Hs as (Hs & _). simpl. auto.
   Qed.
 
   Lemma first_vertex_data a : forall b, Inv a -> Inv b -> sim a b -> first_vertex a = first_vertex b.
   Proof.
-    induction a; intros b Ha Hb Hs; destruct b; simpl in Hs; try contradiction; simpl.
-    - destruct Hs as (-> & ->); auto.
-    - destruct Hs as (-> & -> & ->); auto.
-    - destruct Hs as (-> & _ & ->); auto.
-    - destruct Hs as (-> & _ & ->); auto.
-    - destruct Hs as (-> & ->); auto.
-    - destruct Hs as (_ & _ & ->); auto.
-    - destruct Hs as (H1 & -> & H3). simpl in Ha, Hb. destruct Ha as (A1 & A2), Hb as (B1 & B2).
-      unfold call, al, w. destruct normal as [l x], normal0 as [l0 x0]. simpl in *. subst.
-      destruct (wrap current W_Disk_fv_normal); simpl; rewrite H1; auto.
-    - destruct Hs as (-> & -> & ->); auto.
-    - destruct Hs as (-> & -> & _); auto.
-    - destruct Hs as (Hs & _). simpl in Ha, Hb. auto.
+    induction a; intros b Ha Hb Hs; destruct b; simpl in Hs; try contradiction.
+    1-9: closed.
+    destruct Hs as (Hs & _). simpl in *. auto.
   Qed.
 
   Lemma collider2origin_data a : forall b, Inv a -> Inv b -> sim a b -> collider2origin a = collider2origin b.
   Proof.
-    induction a; intros b Ha Hb Hs; destruct b; simpl in Hs; try contradiction; simpl;
-      try (destruct Hs as (-> & _); reflexivity).
-    - destruct Hs as (H1 & _ & H3). simpl in Ha, Hb. destruct Ha as (A1 & A2), Hb as (B1 & B2).
-      unfold call, al, w. destruct normal as [l x], normal0 as [l0 x0]. simpl in *. subst.
-      destruct (wrap current W_Disk_c2o_normal); simpl; rewrite H1; auto.
-    - destruct Hs as (-> & -> & _); auto.
-    - destruct Hs as (Hs & _). simpl in Ha, Hb. auto.
+    induction a; intros b Ha Hb Hs; destruct b; simpl in Hs; try contradiction.
+    1-9: closed.
+    destruct Hs as (Hs & _). simpl in *. auto.
   Qed.
 
   Definition is_support (q : query) : bool := match q with QSupport _ => true | _ => false end.
